@@ -2,6 +2,7 @@ import F3.Spec.GraniteNet
 import F3.Props.C08
 import F3.Proofs.BridgeEx
 import F3.Proofs.ParticipantBridge
+import F3.Proofs.RestartEx
 /-!
 # C01 — Agreement
 
@@ -241,5 +242,134 @@ theorem agreement_model_participant_nonvacuous :
   ⟨⟨exNetP⟩, ex_networkP_decides.1, ex_networkP_decides.2.1, ex_queue_drained.1, ex_networkP_decides.2.2⟩
 
 end ParticipantAPI
+
+/-! ## Agreement when honest participants crash and restart inside the instance (C01 ∘ C12) -/
+section Restarts
+open F3.Instance F3.Bridge F3.Restart
+
+/-- **Agreement across restarts, end to end for the model of the code.**  `N : NetworkR t F W`: power table `t`
+with distinct ids and positive total; Byzantine set `F` with less than a third of the power; `W` the validly signed
+votes in existence; only committee members' votes count; every honest committee member `p` is a *list of
+incarnations* (`Segment`s): each a fresh run of `Instance.step` from `init` (nothing is remembered across a crash;
+configuration and input chain may even differ between incarnations) on an arbitrary list of operations in which
+every delivered message of this instance is valid w.r.t. `W` (`MsgValid`) and no call reports an error other than a
+refusal at the door (`okRun`).  What `p` has on the wire is constrained only by the interface taken from C12
+(`PublishedOK`): at most one value per (round, phase) slot, and every vote of `p` in existence was requested by one
+of its incarnations — a request may be dropped by the filter or lost in a crash.  Then any two decisions reported by
+any incarnations of any honest members are equal. -/
+theorem agreement_model_restarts {t : Table} {F : Finset Pid} {W : Instance.Votes} (N : NetworkR t F W)
+    (p q : Pid) (hp : p ∈ (ids t).toFinset) (hpF : p ∉ F) (hq : q ∈ (ids t).toFinset) (hqF : q ∉ F)
+    (sp : Segment W t) (hsp : sp ∈ (N.runs p hp hpF).segs) (sq : Segment W t) (hsq : sq ∈ (N.runs q hq hqF).segs)
+    (dp dq : Just)
+    (hdp : (run (init sp.cfg t sp.input) sp.ops).1.termination = some dp)
+    (hdq : (run (init sq.cfg t sq.input) sq.ops).1.termination = some dq) :
+    dp.value = dq.value :=
+  model_agreement_restarts N p q hp hpF hq hqF sp hsp sq hsq dp dq hdp hdq
+
+/-- **Validity across restarts.**  A decision reported by any incarnation of an honest member is a non-empty prefix
+of the input chain of some incarnation of some honest committee member. -/
+theorem validity_model_restarts {t : Table} {F : Finset Pid} {W : Instance.Votes} (N : NetworkR t F W)
+    (p : Pid) (hp : p ∈ (ids t).toFinset) (hpF : p ∉ F) (sp : Segment W t) (hsp : sp ∈ (N.runs p hp hpF).segs)
+    (d : Just) (hd : (run (init sp.cfg t sp.input) sp.ops).1.termination = some d) :
+    d.value ≠ [] ∧ ∃ h, ∃ hh : h ∈ (ids t).toFinset, ∃ hF : h ∉ F, ∃ s ∈ (N.runs h hh hF).segs, d.value <+: s.input :=
+  model_validity_restarts N p hp hpF sp hsp d hd
+
+/-- The restart-tolerant honest rules (`RulesR`: `commit_bottom` asks only that two different values be justified
+in the round, not that the member's own PREPARE be on the wire) are theorems about the executable model with
+restarts … -/
+theorem model_satisfies_restart_rules {t : Table} {F : Finset Pid} {W : Instance.Votes} (N : NetworkR t F W) :
+    (world t F W).RulesR := N.rulesR
+
+/-- … they are implied by the original rules, and they suffice for agreement. -/
+theorem restart_rules_weaker (w : World P V) (R : w.Rules) : w.RulesR := R.toRulesR
+
+theorem agreement_restart_rules (w : World P V) (R : w.RulesR) {x y : V}
+    (hx : w.Q .decide 0 x) (hy : w.Q .decide 0 y) : x = y :=
+  World.RulesR.decide_quorums_agree R hx hy
+
+/-- **The interface taken from C12 is what C12 proves.**  For *any* history `hist` of the C12 node model
+(`F3.Equiv`: requests with a crash point after the filter / the WAL append / the publish, rebroadcasts, receives,
+stops, restarts re-arming the filter from the WAL, purges, trims) that satisfies C12's hypotheses `RunOk`, if the
+node's `BroadcastMessage` calls for votes of `p` in instance `inst` are requests of `p`'s incarnations (`hreq`), the
+votes of `p` in existence are on that node's wire (`hown`), and the signature of a vote determines its value
+(`hsig`), then `PublishedOK` holds: `single` by `wire_no_equivocation`, `requested` by `record_before_publish`. -/
+theorem published_interface_from_c12 {t : Table} {W : Instance.Votes} (p : Pid) (segs : List (Segment W t))
+    (own : Nat → Bool) (l : Equiv.Peer) (hist : List Equiv.Op) (hok : Equiv.RunOk own (Equiv.Sys.init l) hist)
+    (inst : Nat) (sig : Req → Nat) (hsig : ∀ r ph x y, sig (r, ph, x) = sig (r, ph, y) → x = y)
+    (hreq : ∀ m c, Equiv.Op.broadcast m c ∈ hist → m.inst = inst → m.sender = p →
+      ∃ s ∈ segs, ∃ q ∈ requests s.effs, m = toMsg inst p sig q)
+    (hown : ∀ r ph v, W p r ph v → toMsg inst p sig (r, ph, v) ∈ (Equiv.run (Equiv.Sys.init l) hist).wire) :
+    PublishedOK W t p segs :=
+  publishedOK_of_wire p segs own l hist hok inst sig hsig hreq hown
+
+/-- The same when a vote counts as existing as soon as it is recorded in the WAL (`ever` ⊇ wire): the reading under
+which the WAL replay of `startInstanceAt` — which hands the rebuilt participant its recorded messages, including one
+whose publish was cut off by the crash — delivers only existing votes. -/
+theorem published_interface_from_c12_wal {t : Table} {W : Instance.Votes} (p : Pid) (segs : List (Segment W t))
+    (own : Nat → Bool) (l : Equiv.Peer) (hist : List Equiv.Op) (hok : Equiv.RunOk own (Equiv.Sys.init l) hist)
+    (inst : Nat) (sig : Req → Nat) (hsig : ∀ r ph x y, sig (r, ph, x) = sig (r, ph, y) → x = y)
+    (hreq : ∀ m c, Equiv.Op.broadcast m c ∈ hist → m.inst = inst → m.sender = p →
+      ∃ s ∈ segs, ∃ q ∈ requests s.effs, m = toMsg inst p sig q)
+    (hown : ∀ r ph v, W p r ph v → toMsg inst p sig (r, ph, v) ∈ (Equiv.run (Equiv.Sys.init l) hist).ever) :
+    PublishedOK W t p segs :=
+  publishedOK_of_ever p segs own l hist hok inst sig hsig hreq hown
+
+/-- The vote-level filter `published` (first value per slot wins, over the concatenated requests of the
+incarnations) satisfies the interface, … -/
+theorem published_interface_from_scan {t : Table} {W : Instance.Votes} (p : Pid) (segs : List (Segment W t))
+    (hown : ∀ r ph v, W p r ph v ↔ (r, ph, v) ∈ published (segs.map (fun s => requests s.effs))) :
+    PublishedOK W t p segs :=
+  publishedOK_of_published p segs hown
+
+/-- … is exactly first-value-wins, … -/
+theorem published_first_wins (segs : List (List Req)) (x : Req) :
+    x ∈ published segs ↔
+      ∃ pre post, segs.flatten = pre ++ x :: post ∧
+        ∀ s ∈ scan [] pre, s.1 = x.1 → s.2.1 = x.2.1 → s.2.2 = x.2.2 := by
+  unfold published
+  rw [mem_scan_iff]
+  constructor
+  · rintro (h | ⟨pre, post, he, ha⟩)
+    · cases h
+    · exact ⟨pre, post, he, (allowed_iff _ _).1 ha⟩
+  · rintro ⟨pre, post, he, ha⟩
+    exact Or.inr ⟨pre, post, he, (allowed_iff _ _).2 ha⟩
+
+/-- … and is the wire of the C12 node model on the crash-free history of the incarnations (which is admissible
+for C12). -/
+theorem published_is_c12_wire (sender l inst : Nat) (sig : Req → Nat)
+    (hsig : ∀ r ph x y, sig (r, ph, x) = sig (r, ph, y) → x = y) (segs : List (List Req)) :
+    Equiv.RunOk (fun x => x == sender) (Equiv.Sys.init l) (history inst sender sig segs) ∧
+    (Equiv.run (Equiv.Sys.init l) (history inst sender sig segs)).wire =
+      (published segs).map (toMsg inst sender sig) :=
+  wire_history sender l inst sig hsig segs
+
+/-- Non-vacuity: four honest members of equal power; member 1 crashes after publishing PREPARE(0, `[7,8]`), its
+second incarnation requests PREPARE(0, `[7]`) (no QUALITY reached it before the timeout) — dropped by the filter —
+publishes COMMIT(0, ⊥) and DECIDE, and both it and member 2 report `[7,8]`.  All hypotheses of
+`agreement_model_restarts` hold (`rNet`), the incarnations are those of the network, and the wire of member 1 is the
+scan of its requests. -/
+theorem agreement_model_restarts_nonvacuous :
+    Nonempty (NetworkR rTbl ∅ rW) ∧
+    (rNet.runs 1 (by decide) (by simp)).segs = [rSeg1a, rSeg1b] ∧ (rNet.runs 2 (by decide) (by simp)).segs = [rSegO] ∧
+    rSeg1b.requested 0 .prepare [7] ∧ ¬ rW 1 0 .prepare [7] ∧ rW 1 0 .prepare [7, 8] ∧ rW 1 0 .commit [] ∧
+    rSeg1a.final.termination = none ∧
+    (∃ d, rSeg1b.final.termination = some d ∧ d.value = [7, 8]) ∧
+    (∃ d, rSegO.final.termination = some d ∧ d.value = [7, 8]) :=
+  ⟨⟨rNet⟩, rNet_runs1, rNet_runs2, r_network_decides⟩
+
+/-- Sharpness: the *original* rule set is false of that network (rule `commit_bottom`: member 1's COMMIT ⊥ is on
+the wire, the PREPARE it dissented from is not) — `agreement_model` does not apply to it, the weakening is needed. -/
+theorem original_rules_fail_under_restarts : ¬ (world rTbl ∅ rW).Rules := r_original_rules_fail
+
+/-- non-vacuity of `published_interface_from_c12` / `published_is_c12_wire`: the example's wire from the C12 model -/
+example (sig : Req → Nat) (hsig : ∀ r ph x y, sig (r, ph, x) = sig (r, ph, y) → x = y) :
+    Equiv.RunOk (fun x => x == 1) (Equiv.Sys.init 0) (history 5 1 sig [requests rSeg1a.effs, requests rSeg1b.effs]) ∧
+    (Equiv.run (Equiv.Sys.init 0) (history 5 1 sig [requests rSeg1a.effs, requests rSeg1b.effs])).wire =
+      [(0, .quality, [7,8]), (0, .prepare, [7,8]), (0, .quality, [7,8]), (0, .commit, []), (0, .decide, [7,8])].map
+        (toMsg 5 1 sig) :=
+  r_wire_is_c12 sig hsig
+
+end Restarts
 
 end F3.Props.C01
